@@ -6,6 +6,7 @@ package main
 
 import (
 	"fmt"
+	"os"
 	"sort"
 	"go/constant"
 	"go/token"
@@ -65,6 +66,7 @@ func (ex *Exec) calleeKey(st *State, c *ssa.CallCommon) (key string, fn *ssa.Fun
 }
 
 func (ex *Exec) doCall(st *State, fr *Frame, ins ssa.Instruction, c *ssa.CallCommon, k Kont) {
+	ex.curCall = ins
 	var args []Val
 	if c.IsInvoke() {
 		args = append(args, ex.get(st, c.Value))
@@ -227,6 +229,9 @@ func (ex *Exec) callStatic(st *State, fr *Frame, fn *ssa.Function, args []Val, b
 	key := fn.String()
 	short := fn.Name()
 	if h, ok := libModels[key]; ok {
+		short := contractShort(key)
+		st.callN[short]++
+		ex.callsiteObligations(st, fr, key, short, st.callN[short], args, pos)
 		k(st, h(ex, st, fr, args, sig, pos))
 		return
 	}
@@ -330,23 +335,7 @@ func (ex *Exec) applyContract(st *State, fr *Frame, ct *Contract, key string, ar
 		ex.check(st, fr, "pre", fmt.Sprintf("%s.%d.%s", short, ord, r.Label), t, props, "precondition of "+short+": "+r.Text, ex.pos(pos))
 	}
 	// call-site obligations of the function under verification
-	if fr.contract != nil {
-		for _, cr := range fr.contract.CallReqs {
-			if (cr.Callee == short || cr.Callee == key || strings.HasSuffix(key, "."+cr.Callee) || strings.HasSuffix(key, ")."+cr.Callee)) && (cr.CallN == 0 || cr.CallN == ord) {
-				avars := map[string]Val{}
-				for ai, a := range args {
-					avars[fmt.Sprintf("arg%d", ai)] = a
-				}
-				cenv := &Env{ex: ex, st: st, old: ex.entryFor(fr), vars: avars, fr: fr, pkg: ex.pkgOfFrame(fr), callerLocals: true}
-				t, err := ex.evalSpecBool(cr.Expr, cenv)
-				if err != nil {
-					ex.errors = append(ex.errors, fmt.Sprintf("%s: call-site obligation %s: %v", funcKey(ex.top), cr.Label, err))
-					continue
-				}
-				ex.check(st, fr, "callsite", cr.Label, t, cr.Props, "call-site obligation at "+short+": "+cr.Text, ex.pos(pos))
-			}
-		}
-	}
+	ex.callsiteObligations(st, fr, key, short, ord, args, pos)
 	// havoc the frame
 	if ct.HasMod {
 		for _, m := range ct.Modifies {
@@ -357,6 +346,9 @@ func (ex *Exec) applyContract(st *State, fr *Frame, ct *Contract, key string, ar
 	} else if !ct.Trusted {
 		if f := ex.findFunc(key); f != nil {
 			ms := ex.modSetOf(f, 0)
+			if os.Getenv("GOVC_DEBUG_MODS") != "" {
+				fmt.Fprintf(os.Stderr, "modset %s: all=%v ext=%v written=%v heaps=%v\n", key, ms.all, ms.ext, sortedKeys(ms.written), len(ms.heaps))
+			}
 			ex.applyModSet(st, ms)
 		} else {
 			ex.havocAll(st, true)
@@ -479,6 +471,32 @@ func (ex *Exec) pkgOfFrame(fr *Frame) *types.Package {
 		return f.Pkg.Pkg
 	}
 	return nil
+}
+
+func (ex *Exec) callsiteObligations(st *State, fr *Frame, key, short string, ord int, args []Val, pos token.Pos) {
+	if fr.contract == nil {
+		return
+	}
+	// ordinals in `call f#k` are STATIC: the k-th call site of f in the
+	// function's source order (a site inside a loop keeps its number)
+	if so := ex.staticOrdinal(fr.fn, ex.curCall, key); so > 0 {
+		ord = so
+	}
+	for _, cr := range fr.contract.CallReqs {
+		if (cr.Callee == short || cr.Callee == key || strings.HasSuffix(key, "."+cr.Callee) || strings.HasSuffix(key, ")."+cr.Callee)) && (cr.CallN == 0 || cr.CallN == ord) {
+			avars := map[string]Val{}
+			for ai, a := range args {
+				avars[fmt.Sprintf("arg%d", ai)] = a
+			}
+			cenv := &Env{ex: ex, st: st, old: ex.entryFor(fr), vars: avars, fr: fr, pkg: ex.pkgOfFrame(fr), callerLocals: true}
+			t, err := ex.evalSpecBool(cr.Expr, cenv)
+			if err != nil {
+				ex.errors = append(ex.errors, fmt.Sprintf("%s: call-site obligation %s: %v", funcKey(ex.top), cr.Label, err))
+				continue
+			}
+			ex.check(st, fr, "callsite", cr.Label, t, cr.Props, "call-site obligation at "+short+": "+cr.Text, ex.pos(pos))
+		}
+	}
 }
 
 // unknownCall: an external callee without contract. Results are arbitrary;
@@ -608,6 +626,17 @@ func (ex *Exec) instrMods(ins ssa.Instruction, ms *ModSet, depth int) {
 				ms.write(fieldHeapName(sty, f), ArraySort(sortOf(f.Type())))
 			}
 		case *ssa.IndexAddr:
+			if isFreshArrayBase(a.X) {
+				// element of an array allocated in this very function (slice
+				// literals, varargs): initialisation of fresh memory
+				if et, ok := derefPtr(a.X.Type()); ok {
+					if arr, ok := et.Underlying().(*types.Array); ok {
+						es := sortOf(arr.Elem())
+						ms.alloc(memName(es), memSort(es))
+						return
+					}
+				}
+			}
 			var elem types.Type
 			switch u := a.X.Type().Underlying().(type) {
 			case *types.Slice:
@@ -696,7 +725,13 @@ func (ex *Exec) callMods(c *ssa.CallCommon, ms *ModSet, depth int) {
 			}
 			if elem != nil {
 				es := sortOf(elem)
-				ms.write(memName(es), memSort(es))
+				if b.Name() == "append" && isLocalAccumulator(c.Args[0]) {
+					// slice built up locally from nil: append only ever touches
+					// regions allocated by earlier appends of this function
+					ms.alloc(memName(es), memSort(es))
+				} else {
+					ms.write(memName(es), memSort(es))
+				}
 			}
 		}
 		return
@@ -1046,55 +1081,54 @@ func (ex *Exec) doAppend(st *State, fr *Frame, s, t Val, sty, tty types.Type) Va
 	fresh := st.freshAlloc("app")
 	ncap := st.fresh("appcap", SortInt)
 	st.assume(And(Ge(ncap, newLen), Le(ncap, BigLit(pow2(56)))))
-	rg := Ite(fits, SlRg(s.T), fresh)
-	off := Ite(fits, SlOff(s.T), IntLit(0))
-	cp := Ite(fits, SlCap(s.T), ncap)
-	res := MkSlice(rg, off, newLen, cp)
 	oldS := Select(m, SlRg(s.T))
-	na := st.fresh("apparr", ArraySort(es))
-	base := Add(off, SlLen(s.T))
-	// single element appended: array given directly (no quantifier for the new part)
-	single := tlen.K != nil && tlen.K.IsInt64() && tlen.K.Int64() <= 4 && !fromString
-	if single {
-		// in place: store into old array; fresh: copy prefix then store
-		n := int(tlen.K.Int64())
-		inPlace := oldS
-		for j := 0; j < n; j++ {
-			el := Select(Select(m, SlRg(t.T)), Add(SlOff(t.T), IntLit(int64(j))))
-			inPlace = Store(inPlace, Add(Add(SlOff(s.T), SlLen(s.T)), IntLit(int64(j))), el)
-		}
-		st.emit(fmt.Sprintf("(assert (=> %s (= %s %s)))", fits.S, na.S, inPlace.S))
-		for j := 0; j < n; j++ {
-			el := Select(Select(m, SlRg(t.T)), Add(SlOff(t.T), IntLit(int64(j))))
-			st.assume(Eq(Select(na, Add(base, IntLit(int64(j)))), el))
-		}
-	} else {
+	// two separate result arrays, one per case, so that the case split on
+	// `fits` stays at the top of every term (no ite inside index arithmetic)
+	mkCase := func(tag string, off Term) Term {
+		na := st.fresh("apparr"+tag, ArraySort(es))
+		base := Add(off, SlLen(s.T))
 		var src string
 		if fromString {
 			src = fmt.Sprintf("(b.at %s (- k %s))", t.T.S, base.S)
 		} else {
 			src = fmt.Sprintf("(select %s (+ %s (- k %s)))", Select(m, SlRg(t.T)).S, SlOff(t.T).S, base.S)
 		}
+		// appended elements
 		st.emit(fmt.Sprintf("(assert (forall ((k Int)) (! (=> (and (<= %s k) (< k %s)) (= (select %s k) %s)) :pattern ((select %s k)))))",
 			base.S, Add(base, tlen).S, na.S, src, na.S))
-		// in place: everything outside the appended window is unchanged
-		st.emit(fmt.Sprintf("(assert (=> %s (forall ((j Int)) (! (=> (or (< j %s) (>= j %s)) (= (select %s j) (select %s j))) :pattern ((select %s j))))))",
-			fits.S, base.S, Add(base, tlen).S, na.S, oldS.S, na.S))
-	}
-	// old elements preserved (fresh case: copied to offset 0)
-	st.emit(fmt.Sprintf("(assert (forall ((k Int)) (! (=> (and (<= %s k) (< k %s)) (= (select %s k) (select %s (+ %s (- k %s))))) :pattern ((select %s k)))))",
-		off.S, Add(off, SlLen(s.T)).S, na.S, oldS.S, SlOff(s.T).S, off.S, na.S))
-	if es == SortInt {
-		var tb Term
-		if fromString {
-			tb = t.T
-		} else {
-			tb = ex.bytesOfSlice(st, nil, t.T)
+		// old elements (index arithmetic kept syntactically simple: triggers
+		// match terms, not arithmetic equalities)
+		srcIdx := fmt.Sprintf("(+ %s (- k %s))", SlOff(s.T).S, off.S)
+		if off.S == SlOff(s.T).S {
+			srcIdx = "k"
+		} else if off.K != nil && off.K.Sign() == 0 {
+			srcIdx = fmt.Sprintf("(+ %s k)", SlOff(s.T).S)
 		}
-		st.assume(Eq(BOf(na, off, newLen), BCat(ex.bytesOfSlice(st, nil, s.T), tb)))
-		st.assume(Eq(BOf(na, off, SlLen(s.T)), ex.bytesOfSlice(st, nil, s.T)))
+		st.emit(fmt.Sprintf("(assert (forall ((k Int)) (! (=> (and (<= %s k) (< k %s)) (= (select %s k) (select %s %s))) :pattern ((select %s k)))))",
+			off.S, base.S, na.S, oldS.S, srcIdx, na.S))
+		if es == SortInt {
+			var tb Term
+			if fromString {
+				tb = t.T
+			} else {
+				tb = ex.bytesOfSlice(st, nil, t.T)
+			}
+			st.assume(Eq(BOf(na, off, newLen), BCat(ex.bytesOfSlice(st, nil, s.T), tb)))
+			st.assume(Eq(BOf(na, off, SlLen(s.T)), ex.bytesOfSlice(st, nil, s.T)))
+		}
+		return na
 	}
-	st.setHeap(memName(es), Store(m, rg, na))
+	naA := mkCase("A", SlOff(s.T))
+	// in place: everything outside the appended window is unchanged
+	baseA := Add(SlOff(s.T), SlLen(s.T))
+	st.emit(fmt.Sprintf("(assert (forall ((j Int)) (! (=> (or (< j %s) (>= j %s)) (= (select %s j) (select %s j))) :pattern ((select %s j)))))",
+		baseA.S, Add(baseA, tlen).S, naA.S, oldS.S, naA.S))
+	naB := mkCase("B", IntLit(0))
+	resA := MkSlice(SlRg(s.T), SlOff(s.T), newLen, SlCap(s.T))
+	resB := MkSlice(fresh, IntLit(0), newLen, ncap)
+	res := st.fresh("appres", SortSlice)
+	st.assume(Eq(res, Ite(fits, resA, resB)))
+	st.setHeap(memName(es), Ite(fits, Store(m, SlRg(s.T), naA), Store(m, fresh, naB)))
 	return TV(res, sty)
 }
 
@@ -1402,4 +1436,119 @@ func closureStoresFreeVars(fn *ssa.Function) bool {
 		}
 	}
 	return false
+}
+
+func isFreshArrayBase(v ssa.Value) bool {
+	a, ok := v.(*ssa.Alloc)
+	if !ok {
+		return false
+	}
+	et, ok := derefPtr(a.Type())
+	if !ok {
+		return false
+	}
+	_, isArr := et.Underlying().(*types.Array)
+	return isArr
+}
+
+// isLocalAccumulator: v loads a local slice variable that is only ever
+// assigned nil / a fresh make / the result of appending to itself.
+func isLocalAccumulator(v ssa.Value) bool {
+	u, ok := v.(*ssa.UnOp)
+	if !ok || u.Op != token.MUL {
+		return false
+	}
+	a, ok := u.X.(*ssa.Alloc)
+	if !ok || a.Referrers() == nil {
+		return false
+	}
+	// parameters are copied into allocs by a store of the ssa.Parameter: not local
+	for _, r := range *a.Referrers() {
+		switch x := r.(type) {
+		case *ssa.Store:
+			if x.Addr != a {
+				return false // address escapes
+			}
+			switch val := x.Val.(type) {
+			case *ssa.Const:
+				if !val.IsNil() {
+					return false
+				}
+			case *ssa.Call:
+				b, ok := val.Call.Value.(*ssa.Builtin)
+				if !ok || b.Name() != "append" {
+					return false
+				}
+				if u2, ok := val.Call.Args[0].(*ssa.UnOp); !ok || u2.X != a {
+					return false
+				}
+			case *ssa.Slice:
+				if _, ok := val.X.(*ssa.Alloc); !ok {
+					return false
+				}
+			case *ssa.MakeSlice:
+			default:
+				return false
+			}
+		case *ssa.UnOp:
+		case *ssa.DebugRef:
+		default:
+			return false
+		}
+	}
+	return true
+}
+
+// staticOrdinal numbers the call sites of each callee within fn by source position.
+func (ex *Exec) staticOrdinal(fn *ssa.Function, ins ssa.Instruction, key string) int {
+	if ins == nil || fn == nil {
+		return 0
+	}
+	m, ok := ex.siteOrd[fn]
+	if !ok {
+		m = map[ssa.Instruction]int{}
+		type site struct {
+			ins ssa.Instruction
+			key string
+			pos token.Pos
+			idx int
+		}
+		var sites []site
+		n := 0
+		for _, b := range fn.Blocks {
+			for _, i := range b.Instrs {
+				var cc *ssa.CallCommon
+				switch x := i.(type) {
+				case *ssa.Call:
+					cc = &x.Call
+				case *ssa.Defer:
+					cc = &x.Call
+				}
+				if cc == nil {
+					continue
+				}
+				k, f := ex.calleeKey(nil, cc)
+				if f == nil && !cc.IsInvoke() {
+					if rf := resolveClosureVar(cc.Value); rf != nil {
+						k = rf.String()
+					}
+				}
+				n++
+				sites = append(sites, site{i, k, i.Pos(), n})
+			}
+		}
+		sort.SliceStable(sites, func(a, b int) bool {
+			if sites[a].pos != sites[b].pos {
+				return sites[a].pos < sites[b].pos
+			}
+			return sites[a].idx < sites[b].idx
+		})
+		count := map[string]int{}
+		for _, s := range sites {
+			count[s.key]++
+			m[s.ins] = count[s.key]
+		}
+		ex.siteOrd[fn] = m
+	}
+	return m[ins]
 }
